@@ -78,6 +78,17 @@ theorem set_attr_text_check_counterexample :
     AttrWrite.runSetter dataArrayLabel nulText ⟨some 3, 1⟩ = (⟨some 3, 1⟩, some .valueError) := by
   refine ⟨by decide, by decide, by decide⟩
 
+/-- a history of assignments to one attribute (any of the 21 setters, any values, refusals injected at any point): attribute
+and time stamp end as if the refused assignments had never been made -/
+theorem attr_history_skips_refused (h : List (AttrWrite.Arg × String × AttrWrite.Setter))
+    (hall : ∀ c ∈ h, c.2 ∈ Nix.Generated.AttrOrder.all) (f : AttrWrite.File) :
+    runHistory AttrWrite.sys (h.map fun c => (c.1, c.2.2 c.1.storesNone)) f =
+      runAccepted AttrWrite.sys (h.map fun c => (c.1, c.2.2 c.1.storesNone)) f := by
+  apply history_skips_refused AttrWrite.sys attr_sound (fun _ => rfl)
+  intro c hc
+  obtain ⟨c0, hc0, rfl⟩ := List.mem_map.mp hc
+  exact attr_setters_safe c0.2 (hall c0 hc0) c0.1.storesNone
+
 /-! ## Non-vacuity -/
 
 /-- `Entity.type = None` is refused, the type stands … -/
